@@ -173,15 +173,14 @@ def _exception_reason(cfg, fn, res, nid, node, raisers):
             facts = cfg.facts_at(r)
             guarded = False
             for expr, val in facts:
-                if val and isinstance(expr, ast.Compare) and len(expr.ops) == 1 and isinstance(expr.ops[0], ast.In):
-                    t = res.term(expr.comparators[0])
-                    if any(s[0] == "field" and s[1] == "quantity_types" for s in walk(t)):
-                        guarded = True
+                # `unit in [q.unit for q in <per-type list>]`, `any(q.unit == unit for q in <per-type list>)`, ...
+                if val and any(s[0] == "field" and s[1] == "quantity_types" for s in walk(res.term(expr))):
+                    guarded = True
             if not guarded:
                 ok = False
         dom = cfg.facts_at(nid)
-        first_test = any((not val) and isinstance(e, ast.Compare) and isinstance(e.ops[0], ast.In)
-                         and any(s == ("field", "unit_to_unit_info") for s in walk(res.term(e.comparators[0]))) for e, val in dom)
+        from ..facts import norm_fact
+        first_test = any(k == "in" and not pos and any(s == ("field", "unit_to_unit_info") for s in walk(res.term(r_))) for k, l_, r_, pos in (norm_fact(e, val) for e, val in dom))
         if ok and first_test:
             return "is unreachable (the per-type list only holds units of the unit map, and the write is dominated by the map's duplicate test)"
     if fn.name == "AddCategory" and isinstance(node, ast.Assign) and isinstance(node.targets[0], ast.Subscript):
